@@ -86,6 +86,44 @@ func rangeT(dt tensor.Dtype, shape []int) tensor.Tensor {
 	return mkT(shape, backingOf(dt, prod(shape), func(i int) float64 { return float64(i) }))
 }
 
+// rangeSpecialT: like rangeT, but for float element types a few elements carry bit patterns that
+// only a bit-exact copy preserves (-0, a quiet and a signalling NaN with payloads, subnormal).
+func rangeSpecialT(dt tensor.Dtype, shape []int, salt int) tensor.Tensor {
+	t := rangeT(dt, shape)
+	n := prod(shape)
+	if n == 0 || !isFloat(dt) {
+		return t
+	}
+	set := func(i int, b32 uint32, b64 uint64) {
+		if dt == tensor.Float32 {
+			v := math.Float32frombits(b32)
+			if len(shape) == 0 {
+				t = tensor.New(tensor.FromScalar(v))
+				return
+			}
+			t.Data().([]float32)[i%n] = v
+			return
+		}
+		v := math.Float64frombits(b64)
+		if len(shape) == 0 {
+			t = tensor.New(tensor.FromScalar(v))
+			return
+		}
+		t.Data().([]float64)[i%n] = v
+	}
+	switch salt % 4 {
+	case 0:
+		set(salt/4, 0x80000000, 0x8000000000000000) // -0
+	case 1:
+		set(salt/4, 0x7fa00001, 0x7ff4000000000001) // signalling NaN with payload
+		set(salt/4+1, 0x80000000, 0x8000000000000000)
+	case 2:
+		set(salt/4, 0xffc12345, 0xfff8000000012345) // quiet NaN with payload
+		set(salt/4+2, 0x00000001, 0x0000000000000001)
+	}
+	return t
+}
+
 func stdStrides(shape []int) []int {
 	st := make([]int, len(shape))
 	acc := 1
